@@ -9,10 +9,19 @@ Reads
       follow-up keeps the follow-up message in the history (fix S16); ToolCallCollector::observe completes a
       call id once (fix S19); stream_openresponses_request — the `payload.errors()` gate returns
       "invalid_request" before the only `request.send()`.
-Emits coq/Gen/ToolLoopGen.v: gen_max_tool_calls : N, gen_ok_tool_loop : bool, gen_fixed : bool and the obligation
+  crates/rip-openresponses/src/lib.rs       : validate_create_response_body judges the WHOLE body by the
+      CreateResponseBody schema: the only fields taken out of the copy handed to CREATE_RESPONSE_VALIDATOR are
+      `tools` and `tool_choice`, each judged instead by the validator compiled from the component schema the
+      CreateResponseBody document itself names for that field (schemas/openresponses/split_components.json);
+      nothing else mutates the copy; every error reaches the result; no early Ok.  `input` — the only part of a
+      follow-up the provider controls — must never be carved out.
+  crates/rip-provider-openresponses/src/request/create_response.rs : CreateResponsePayload::new fills `errors`
+      from validate_create_response_body(&body) of the very body it keeps; errors() returns them.
+Emits coq/Gen/ToolLoopGen.v: gen_validator_carved : list string, gen_ok_validator : bool and the obligation
+gen_validator_ok (every carved field is one of tools / tool_choice and every construct was found), and gen_max_tool_calls : N, gen_ok_tool_loop : bool, gen_fixed : bool and the obligation
 gen_tool_loop_ok (the model's MAX_TOOL_CALLS and FIXED are the generated values and every construct was found).
 A construct that is not found sets gen_ok_tool_loop := false (never guess)."""
-import argparse, os, re, sys
+import argparse, json, os, re, sys
 
 
 def strip_comments(s):
@@ -97,10 +106,79 @@ def main():
          "the body that is sent is not req.payload.body()")
     need(s16 == s19, "fix S16 present = %s but fix S19 present = %s (the model has one FIXED flag)" % (s16, s19))
 
+    # ---- the request-body validator (the `valid` of the model): whole body against the schema
+    vnotes, vok = [], True
+
+    def vneed(cond, what):
+        nonlocal vok
+        if not cond:
+            vok = False
+            vnotes.append(what)
+
+    orl = rd("crates/rip-openresponses/src/lib.rs")
+    vb = between(orl, "pub fn validate_create_response_body(", "\npub fn validate_responses_tool_param")
+    vneed(vb is not None, "validate_create_response_body not found")
+    vb = vb or ""
+    carved = re.findall(r"\.\s*(?:remove|remove_entry|swap_remove|shift_remove)\s*\(\s*\"([^\"]*)\"\s*\)", vb)
+    n_removes = len(re.findall(r"\.\s*(?:remove|remove_entry|swap_remove|shift_remove)\s*\(", vb))
+    vneed(n_removes == len(carved), "a field is removed from the validated copy under a computed name")
+    vneed(len(re.findall(r"let\s+mut\s+stripped\s*=\s*value\.clone\(\)\s*;", vb)) == 1, "`let mut stripped = value.clone();` not found")
+    vneed(len(re.findall(r"\bstripped\s*=[^=]", vb)) == 1, "the validated copy is assigned more than once")
+    vneed(len(re.findall(r"if\s+let\s+Value::Object\(map\)\s*=\s*&mut\s+stripped", vb)) == 1 and vb.count("&mut") == 1,
+          "expected exactly one mutable borrow of the validated copy (`if let Value::Object(map) = &mut stripped`)")
+    for bad in (".retain(", ".clear(", ".insert(", ".take(", "_mut(", ".entry(", ".append(", ".extend_from", "mem::", ".truncate(", ".drain(", ".pop(", ".split_off(", "*map", "Value::Null;", "stripped[", "map[", "unsafe", "as_object_mut"):
+        vneed(bad not in vb.replace("errors.extend", "").replace("errors.push", ""), "the validated copy may be edited: `%s` appears in validate_create_response_body" % bad)
+    vneed(re.search(r"if\s+let\s+Err\(errs\)\s*=\s*CREATE_RESPONSE_VALIDATOR\.validate\(&stripped\)\s*\{\s*errors\.extend\(errs\.map\(\|e\|\s*e\.to_string\(\)\)\);\s*\}", vb) is not None,
+          "CREATE_RESPONSE_VALIDATOR.validate(&stripped) with its errors added to `errors` not found")
+    vneed(re.search(r"if\s+errors\.is_empty\(\)\s*\{\s*Ok\(\(\)\)\s*\}\s*else\s*\{\s*Err\(errors\)\s*\}\s*\}\s*$", vb.strip()) is not None,
+          "the function does not end in `if errors.is_empty() { Ok(()) } else { Err(errors) }`")
+    vneed(vb.count("Ok(") == 1 and "return" not in vb, "an early return / second Ok in validate_create_response_body")
+    vneed(re.search(r"static\s+CREATE_RESPONSE_VALIDATOR\s*:\s*Lazy<JSONSchema>\s*=\s*Lazy::new\(\|\|\s*compile_split_schema\(\"CreateResponseBody\.json\"\)\)", orl) is not None,
+          "CREATE_RESPONSE_VALIDATOR is not compiled from CreateResponseBody.json")
+    # what the schema document names for the carved fields
+    try:
+        comps = json.load(open(os.path.join(a.repo, "schemas/openresponses/split_components.json")))
+        props = comps["CreateResponseBody.json"]["properties"]
+        doc_tools = props["tools"]["anyOf"][0]["items"]["$ref"]
+        doc_choice = props["tool_choice"]["anyOf"][0]["$ref"]
+        doc_input = props["input"]["anyOf"][0]["oneOf"][1]["items"]["$ref"]
+    except Exception as e:  # noqa
+        doc_tools = doc_choice = doc_input = None
+        vneed(False, "split_components.json: CreateResponseBody.properties.{tools,tool_choice,input} not in the expected shape: %s" % e)
+    vneed(doc_input == "./ItemParam.json", "CreateResponseBody.input items are not ItemParam")
+    sub = {"tools": ("validate_responses_tool_param", "TOOL_PARAM_VALIDATOR", doc_tools, r"for\s*\(idx,\s*item\)\s*in\s*items\.iter\(\)\.enumerate\(\)\s*\{\s*if\s+let\s+Err\(errs\)\s*=\s*validate_responses_tool_param\(item\)\s*\{\s*errors\s*\.extend\("),
+           "tool_choice": ("validate_tool_choice_param", "TOOL_CHOICE_VALIDATOR", doc_choice, r"if\s+let\s+Err\(errs\)\s*=\s*validate_tool_choice_param\(&choice\)\s*\{\s*errors\.extend\(")}
+    for f in carved:
+        if f not in sub:
+            continue  # reported through the obligation (the field list is generated)
+        fn, stat, doc, site = sub[f]
+        vneed(carved.count(f) == 1, "`%s` removed more than once" % f)
+        vneed(re.search(site, vb) is not None, "carved field `%s` is not judged by %s with its errors added to `errors`" % (f, fn))
+        fb = between(orl, "pub fn %s(" % fn, "\npub fn ")
+        vneed(fb is not None and re.search(r"match\s+%s\.validate\(value\)\s*\{\s*Ok\(_\)\s*=>\s*Ok\(\(\)\),\s*Err\(errors\)\s*=>\s*Err\(errors\.map\(\|e\|\s*e\.to_string\(\)\)\.collect\(\)\),\s*\}" % stat, fb or "") is not None,
+              "%s is not `match %s.validate(value) { Ok(_) => Ok(()), Err(errors) => Err(...) }`" % (fn, stat))
+        m2 = re.search(r"static\s+%s\s*:\s*Lazy<JSONSchema>\s*=\s*Lazy::new\(\|\|\s*compile_split_schema\(\"([A-Za-z0-9_]+\.json)\"\)\)" % stat, orl)
+        vneed(m2 is not None and doc == "./" + m2.group(1), "%s is not compiled from the schema the document names for `%s` (%s)" % (stat, f, doc))
+    cs = between(orl, "fn compile_split_schema(", "\nfn compile_split_stream_schema")
+    vneed(cs is not None and re.search(r"for\s*\(schema_name,\s*schema\)\s*in\s*SPLIT_COMPONENTS\.iter\(\)\s*\{\s*let\s+uri\s*=\s*format!\(\"\{SPLIT_COMPONENTS_URI_PREFIX\}\{schema_name\}\"\);\s*options\.with_document\(uri,\s*schema\.clone\(\)\);\s*\}", cs or "") is not None
+          and re.search(r"\"\$ref\"\s*:\s*format!\(\"\{SPLIT_COMPONENTS_URI_PREFIX\}\{name\}\"\)", cs or "") is not None and "options" in (cs or "") and ".compile(&root_ref)" in (cs or ""),
+          "compile_split_schema does not compile {$ref: <name>} over all unmodified split components")
+    cr = rd("crates/rip-provider-openresponses/src/request/create_response.rs")
+    vneed(re.search(r"pub\s+fn\s+new\(body:\s*Value\)\s*->\s*Self\s*\{\s*let\s+errors\s*=\s*match\s+validate_create_response_body\(&body\)\s*\{\s*Ok\(_\)\s*=>\s*Vec::new\(\),\s*Err\(errs\)\s*=>\s*errs,\s*\};\s*Self\s*\{\s*body,\s*errors\s*\}\s*\}", cr) is not None,
+          "CreateResponsePayload::new does not take its errors from validate_create_response_body(&body)")
+    vneed(re.search(r"pub\s+fn\s+errors\(&self\)\s*->\s*&\[String\]\s*\{\s*&self\.errors\s*\}", cr) is not None, "CreateResponsePayload::errors is not `&self.errors`")
+    vneed(re.search(r"pub\s+fn\s+body\(&self\)\s*->\s*&Value\s*\{\s*&self\.body\s*\}", cr) is not None, "CreateResponsePayload::body is not `&self.body`")
+    pimpl = between(cr, "impl CreateResponsePayload {", "pub struct CreateResponseBuilder") or ""
+    vneed(len(re.findall(r"Self\s*\{\s*body", pimpl)) == 1 and pimpl.count("Self") == 2 and len(re.findall(r"(?<!struct )CreateResponsePayload\s*\{\s*(?:body|errors|\.\.)", cr)) == 0
+          and re.search(r"pub\s+struct\s+CreateResponsePayload\s*\{\s*body:\s*Value,\s*errors:\s*Vec<String>,\s*\}", cr) is not None
+          and "self.errors" not in pimpl.replace("&self.errors", "") and "mut self" not in pimpl,
+          "CreateResponsePayload (private fields body, errors) is built or edited somewhere else than in new()")
+    notes.extend(vnotes)
+
     os.makedirs(a.out, exist_ok=True)
     with open(os.path.join(a.out, "ToolLoopGen.v"), "w") as f:
         f.write("(* GENERATED by tools/gen/tool_loop.py from crates/ripd/src/{session,provider_openresponses}.rs — do not edit *)\n")
-        f.write("From RipV Require Import Base.Prelude Model.ToolLoop.\n")
+        f.write("From Coq Require Import String.\nFrom RipV Require Import Base.Prelude Model.ToolLoop.\n")
         for n in notes:
             f.write("(* note: %s *)\n" % n.replace("*)", "* )"))
         f.write("Definition gen_max_tool_calls : N := %d.\n" % (mx or 0))
@@ -108,9 +186,14 @@ def main():
         f.write("Definition gen_ok_tool_loop : bool := %s.\n" % ("true" if ok else "false"))
         f.write("Lemma gen_tool_loop_ok :\n  gen_ok_tool_loop && (gen_max_tool_calls =? MAX_TOOL_CALLS) && Bool.eqb gen_fixed FIXED = true.\n")
         f.write("Proof. vm_compute. reflexivity. Qed.\n")
+        f.write("(* the request-body validator: fields judged outside the CreateResponseBody schema (by the component schema the\n   document names for them); `input` must not be one of them *)\n")
+        f.write("Definition gen_validator_carved : list string := [%s].\n" % "; ".join('"%s"%%string' % c.replace('"', '""') for c in carved))
+        f.write("Definition gen_ok_validator : bool := %s.\n" % ("true" if vok else "false"))
+        f.write("Lemma gen_validator_ok :\n  gen_ok_validator && forallb (fun f => existsb (String.eqb f) [\"tools\"%string; \"tool_choice\"%string]) gen_validator_carved = true.\n")
+        f.write("Proof. vm_compute. reflexivity. Qed.\n")
     for n in notes:
         print("note:", n)
-    print("tool_loop: max=%s fixed=%s ok=%s" % (mx, s16 and s19, ok))
+    print("tool_loop: max=%s fixed=%s ok=%s validator_carved=%s validator_ok=%s" % (mx, s16 and s19, ok, carved, vok))
     return 0
 
 
